@@ -52,10 +52,10 @@ CHECKS = {
   "AddBlockSummary/GenerateCachingSchedule are run along enumerated small-scope and seeded histories for several memory limits (schedules also asked part-way through a recording; one reused deletions buffer); each scheduled position must be the slot of a leaf added in that block and deleted later, unique and ascending, the number of scheduled leaves alive at any block must not exceed the limit, and an unbounded limit must schedule every qualifying leaf.",
   "The ledger is kept by the generator itself; no library code is involved in the oracle."),
  "C16": ("exploration", "runtime monitoring: math/big geometry oracle, exhaustive for small heights, boundary/random for heights up to 63",
-  "Exported position functions are compared with an independent big-integer geometry: exhaustively for heights <= 6 (all positions, leaf counts, target subsets of forests <= 8 leaves for ProofPositions) and on boundary and random 64-bit values for every height up to 63.",
+  "Exported position functions are compared with an independent big-integer geometry: exhaustively for heights <= 6 (all positions, leaf counts, target subsets of forests <= 8 leaves for ProofPositions) and on boundary and random 64-bit values for every height up to 63; returned slices are overwritten / appended to and the function asked again (RootPositions) or the other result re-compared (ProofPositions), so results that share memory are caught.",
   "Oracle shares no shift/mask code with utils.go; positions outside the documented domain are only checked for documented error returns."),
  "C17": ("exploration", "runtime monitoring: sentinel-padded argument slices and aliasing canaries compared before/after every call",
-  "Every argument slice is a sub-slice of a larger backing array with sentinels, deep-copied before each call and compared afterwards; previously returned results are retained and re-compared after later calls; block data is re-used across verify, three instances, undo and re-apply.",
+  "Every argument slice is a sub-slice of a larger backing array with sentinels, deep-copied before each call and compared afterwards; previously returned results are retained and re-compared after later calls; block data is re-used across verify, three instances, undo and re-apply. (Since round 10 every other monitor also hands the library roomy argument slices with junk tails and empty non-nil lists in two cases out of five.)",
   "Honest blocks over the generated histories plus Modify calls that a partial forest must refuse; receiver state is not a caller slice."),
 }
 
